@@ -18,6 +18,15 @@ EX = [
     ("tp_arg_a", "fn g(){f((a,));}"), ("tp_arg_b", "fn g(){f((a));}"), ("tp_arg_c", "fn g(){f(a);}"),
     ("tp_nest_a", "fn g(){let x = ((a,),);}"), ("tp_nest_b", "fn g(){let x = ((a,));}"), ("tp_nest_c", "fn g(){let x = (a,);}"),
     ("tp_call_a", "fn g(){f(a,);}"),
+    # ... also when the element has commas of its own (generic arguments, closure parameters), after an attribute,
+    # and after a `>` that is a comparison
+    ("th_gen_a", "fn g(){let x: (HashMap<K,V>,) = f();}"), ("th_gen_b", "fn g(){let x: (HashMap<K,V>) = f();}"),
+    ("th_clo_a", "fn g(){let x = (|a, b| a,);}"), ("th_clo_b", "fn g(){let x = (|a, b| a);}"),
+    ("th_att_a", "fn g(){match x { #[a] (b,) => 1, }}"), ("th_att_b", "fn g(){match x { #[a] (b) => 1, }}"),
+    ("th_cmp_a", "fn g(){let x = a > (b,);}"), ("th_cmp_b", "fn g(){let x = a > (b);}"),
+    # argument position after generic arguments (turbofish, generic fn with an arrow inside the bounds)
+    ("tq_tf_a", "fn g(){f::<A,B>(a,);}"), ("tq_tf_b", "fn g(){f::<A,B>(a);}"),
+    ("tq_fn_a", "fn g<T: Fn() -> u8>(a: T,){}"), ("tq_fn_b", "fn g<T: Fn() -> u8>(a: T){}"),
     ("ex3_bad", "fn f(a: u8) -> (u8,) {\n    match a {\n        1 => 2,\n        _ => 4,\n    }\n}\n"),
 ]
 for (name, src), toks in zip(EX, lex_all([s for _, s in EX])):
